@@ -108,7 +108,8 @@ Variable r : Runner.                     (* the resolved settings *)
 Hypothesis r_wf : runner_wf r.
 
 Definition mrun (len : nat) (stop : nat -> bool) (sched : list nat) : sys :=
-  run len stop (m_dospawn r) (m_nextc r) (init (m_c0 r)) sched.
+  run len (match r_input_len r with Some _ => true | None => false end) stop
+      (m_dospawn r) (m_nextc r) (init (m_c0 r)) sched.
 
 Theorem mrun_GInv len stop sched : GInv len stop (m_maxt r) (mrun len stop sched).
 Proof.
